@@ -251,6 +251,40 @@ def run_big(case, res):
     res.seen(("big", case["kind"], n))
 
 
+def fork_check(obj, expect_list, probe, want_probe, what):
+    """The history goes on in a forked child for a moment: the child sees the object as the parent left it (same listing,
+    same answer to one lookup). Returns None or a description of what the child saw."""
+    import os
+    r, w = os.pipe()
+    pid = os.fork()
+    if pid == 0:
+        msg = b""
+        try:
+            os.close(r)
+            got = (outcome(lambda: list(obj)), outcome(probe))
+            if got != (("ok", expect_list), want_probe):
+                msg = repr(got).encode()[:600]
+        except BaseException as e:
+            msg = ("child raised " + repr(e)).encode()[:600]
+        finally:
+            try:
+                os.write(w, msg)
+            finally:
+                os._exit(0)
+    os.close(w)
+    data = b""
+    while True:
+        chunk = os.read(r, 4096)
+        if not chunk:
+            break
+        data += chunk
+    os.close(r)
+    os.waitpid(pid, 0)
+    if data:
+        return f"{what}: a forked child sees (listing, lookup) -> {data.decode(errors='replace')}; the parent has {expect_list!r} / {want_probe}"
+    return None
+
+
 def run_case(case, res):
     sys.set_int_max_str_digits(0)
     if case.get("big"):
@@ -288,6 +322,12 @@ def run_case(case, res):
                 if g[0] != "ok" or g[1] not in model:
                     raise Violation("content-mismatch", f"pop() -> {g}, not an element of {sorted(model)!r}", {})
                 model.discard(g[1])
+        elif op == "clone" and aux % 5 == 4:
+            first = next(iter(sorted(model)), 0)
+            bad = fork_check(s, sorted(model), (lambda: first in s), ("ok", first in model), type(s).__name__)
+            if bad:
+                raise Violation("fork-view", bad, {})
+            res.count("histories_looked_at_from_a_forked_child")
         elif op == "clone":
             # the caller goes on with a copy (copy.deepcopy / pickle round trip / copy.copy): same content, independent
             import copy
